@@ -808,13 +808,63 @@ func (it *listIter) Less(a, b int) bool { return toString(it.keys[a]) < toString
 
 // ---------------------------------------------------------------- smap
 
-// smap is a map keyed by strings, in insertion order, whose keys may be
-// symbolic. Lookups with (or among) symbolic keys fork on equality.
+// smap is a map keyed by strings or by integer / boolean scalars, in insertion
+// order, whose keys may be symbolic. Lookups with (or among) symbolic keys fork
+// on equality; concrete keys are found through an index.
 type smap struct {
 	keys []value
 	vals []value
-	idx  map[string]int // concrete keys -> position
+	idx  map[string]int // concrete keys (canonical text) -> position
 	nsym int
+}
+
+// symKeyMapType: key types for which smap is used.
+func symKeyMapType(t types.Type) bool {
+	b, ok := t.Underlying().(*types.Basic)
+	return ok && b.Info()&(types.IsString|types.IsInteger|types.IsBoolean) != 0
+}
+
+// keyText returns the canonical text of a concrete key.
+func keyText(k value) (string, bool) {
+	switch x := k.(type) {
+	case string:
+		return x, true
+	case bool:
+		if x {
+			return "t", true
+		}
+		return "f", true
+	case int:
+		return strconv.FormatInt(int64(x), 10), true
+	case int8:
+		return strconv.FormatInt(int64(x), 10), true
+	case int16:
+		return strconv.FormatInt(int64(x), 10), true
+	case int32:
+		return strconv.FormatInt(int64(x), 10), true
+	case int64:
+		return strconv.FormatInt(x, 10), true
+	case uint:
+		return strconv.FormatUint(uint64(x), 10), true
+	case uint8:
+		return strconv.FormatUint(uint64(x), 10), true
+	case uint16:
+		return strconv.FormatUint(uint64(x), 10), true
+	case uint32:
+		return strconv.FormatUint(uint64(x), 10), true
+	case uint64:
+		return strconv.FormatUint(x, 10), true
+	case uintptr:
+		return strconv.FormatUint(uint64(x), 10), true
+	}
+	return "", false
+}
+
+func (i *interpreter) keyEq(a, b value) bool {
+	if isStr(a) || isStr(b) {
+		return i.decideEq(a, b)
+	}
+	return i.scalarEq(a, b)
 }
 
 func (m *smap) len() int {
@@ -828,7 +878,7 @@ func (m *smap) find(i *interpreter, k value) int {
 	if m == nil {
 		return -1
 	}
-	if ks, ok := k.(string); ok {
+	if ks, ok := keyText(k); ok {
 		if j, ok := m.idx[ks]; ok {
 			return j
 		}
@@ -836,17 +886,17 @@ func (m *smap) find(i *interpreter, k value) int {
 			return -1
 		}
 		for j, kk := range m.keys {
-			if _, ok := kk.(string); ok {
+			if _, ok := keyText(kk); ok {
 				continue
 			}
-			if i.decideEq(kk, k) {
+			if i.keyEq(kk, k) {
 				return j
 			}
 		}
 		return -1
 	}
 	for j, kk := range m.keys {
-		if i.decideEq(kk, k) {
+		if i.keyEq(kk, k) {
 			return j
 		}
 	}
@@ -879,7 +929,7 @@ func (m *smap) insert(i *interpreter, k, v value) {
 		m.vals[j] = v
 		return
 	}
-	if ks, ok := k.(string); ok {
+	if ks, ok := keyText(k); ok {
 		m.idx[ks] = len(m.keys)
 	} else {
 		m.nsym++
@@ -893,7 +943,7 @@ func (m *smap) delete(i *interpreter, k value) {
 	if j < 0 {
 		return
 	}
-	if ks, ok := m.keys[j].(string); ok {
+	if ks, ok := keyText(m.keys[j]); ok {
 		delete(m.idx, ks)
 	} else {
 		m.nsym--
